@@ -3,6 +3,7 @@ package c02
 
 import (
 	"fmt"
+	"slices"
 	"testing"
 
 	"github.com/emirpasic/gods/v2/maps/treebidimap"
@@ -58,8 +59,17 @@ func build(c kvh.Case) *ordered {
 		return &ordered{load: via.AutoLoader(t), put: t.Put, rem: t.Remove, clear: t.Clear, size: t.Size, keys: t.Keys, vals: t.Values, hasVals: true,
 			fwd: func() []kv {
 				var out []kv
-				for it := t.Iterator(); it.Next(); {
+				it := t.Iterator()
+				for it.Next() {
 					out = append(out, kv{it.Key(), it.Value()})
+				}
+				// the same iterator, run off the end and rewound, enumerates the same again
+				var again []kv
+				for it.Begin(); it.Next(); {
+					again = append(again, kv{it.Key(), it.Value()})
+				}
+				if !slices.Equal(again, out) {
+					return append(out, again...)
 				}
 				return out
 			},
@@ -68,6 +78,13 @@ func build(c kvh.Case) *ordered {
 				it := t.Iterator()
 				for it.End(); it.Prev(); {
 					out = append(out, kv{it.Key(), it.Value()})
+				}
+				var again []kv
+				for it.End(); it.Prev(); {
+					again = append(again, kv{it.Key(), it.Value()})
+				}
+				if !slices.Equal(again, out) {
+					return append(out, again...)
 				}
 				return out
 			},
@@ -103,8 +120,17 @@ func build(c kvh.Case) *ordered {
 		return &ordered{load: via.AutoLoader(t), put: t.Put, rem: t.Remove, clear: t.Clear, size: t.Size, keys: t.Keys, vals: t.Values, hasVals: true,
 			fwd: func() []kv {
 				var out []kv
-				for it := t.Iterator(); it.Next(); {
+				it := t.Iterator()
+				for it.Next() {
 					out = append(out, kv{it.Key(), it.Value()})
+				}
+				// the same iterator, run off the end and rewound, enumerates the same again
+				var again []kv
+				for it.Begin(); it.Next(); {
+					again = append(again, kv{it.Key(), it.Value()})
+				}
+				if !slices.Equal(again, out) {
+					return append(out, again...)
 				}
 				return out
 			},
@@ -113,6 +139,13 @@ func build(c kvh.Case) *ordered {
 				it := t.Iterator()
 				for it.End(); it.Prev(); {
 					out = append(out, kv{it.Key(), it.Value()})
+				}
+				var again []kv
+				for it.End(); it.Prev(); {
+					again = append(again, kv{it.Key(), it.Value()})
+				}
+				if !slices.Equal(again, out) {
+					return append(out, again...)
 				}
 				return out
 			},
@@ -158,8 +191,17 @@ func build(c kvh.Case) *ordered {
 		return &ordered{load: via.AutoLoader(t), put: t.Put, rem: t.Remove, clear: t.Clear, size: t.Size, keys: t.Keys, vals: t.Values, hasVals: true,
 			fwd: func() []kv {
 				var out []kv
-				for it := t.Iterator(); it.Next(); {
+				it := t.Iterator()
+				for it.Next() {
 					out = append(out, kv{it.Key(), it.Value()})
+				}
+				// the same iterator, run off the end and rewound, enumerates the same again
+				var again []kv
+				for it.Begin(); it.Next(); {
+					again = append(again, kv{it.Key(), it.Value()})
+				}
+				if !slices.Equal(again, out) {
+					return append(out, again...)
 				}
 				return out
 			},
@@ -168,6 +210,13 @@ func build(c kvh.Case) *ordered {
 				it := t.Iterator()
 				for it.End(); it.Prev(); {
 					out = append(out, kv{it.Key(), it.Value()})
+				}
+				var again []kv
+				for it.End(); it.Prev(); {
+					again = append(again, kv{it.Key(), it.Value()})
+				}
+				if !slices.Equal(again, out) {
+					return append(out, again...)
 				}
 				return out
 			},
@@ -206,8 +255,17 @@ func build(c kvh.Case) *ordered {
 		return &ordered{load: via.AutoLoader(t), put: t.Put, rem: t.Remove, clear: t.Clear, size: t.Size, keys: t.Keys, vals: t.Values, hasVals: true,
 			fwd: func() []kv {
 				var out []kv
-				for it := t.Iterator(); it.Next(); {
+				it := t.Iterator()
+				for it.Next() {
 					out = append(out, kv{it.Key(), it.Value()})
+				}
+				// the same iterator, run off the end and rewound, enumerates the same again
+				var again []kv
+				for it.Begin(); it.Next(); {
+					again = append(again, kv{it.Key(), it.Value()})
+				}
+				if !slices.Equal(again, out) {
+					return append(out, again...)
 				}
 				return out
 			},
@@ -216,6 +274,13 @@ func build(c kvh.Case) *ordered {
 				it := t.Iterator()
 				for it.End(); it.Prev(); {
 					out = append(out, kv{it.Key(), it.Value()})
+				}
+				var again []kv
+				for it.End(); it.Prev(); {
+					again = append(again, kv{it.Key(), it.Value()})
+				}
+				if !slices.Equal(again, out) {
+					return append(out, again...)
 				}
 				return out
 			},
@@ -229,8 +294,17 @@ func build(c kvh.Case) *ordered {
 		return &ordered{load: via.AutoLoader(s), put: func(k, _ int) { s.Add(k) }, rem: func(k int) { s.Remove(k) }, clear: s.Clear, size: s.Size, keys: s.Values,
 			fwd: func() []kv {
 				var out []kv
-				for it := s.Iterator(); it.Next(); {
+				it := s.Iterator()
+				for it.Next() {
 					out = append(out, kv{it.Value(), it.Index()})
+				}
+				// the same iterator, run off the end and rewound, enumerates the same again
+				var again []kv
+				for it.Begin(); it.Next(); {
+					again = append(again, kv{it.Value(), it.Index()})
+				}
+				if !slices.Equal(again, out) {
+					return append(out, again...)
 				}
 				return out
 			},
@@ -240,6 +314,13 @@ func build(c kvh.Case) *ordered {
 				for it.End(); it.Prev(); {
 					out = append(out, kv{it.Value(), it.Index()})
 				}
+				var again []kv
+				for it.End(); it.Prev(); {
+					again = append(again, kv{it.Value(), it.Index()})
+				}
+				if !slices.Equal(again, out) {
+					return append(out, again...)
+				}
 				return out
 			},
 		}
@@ -248,8 +329,17 @@ func build(c kvh.Case) *ordered {
 		return &ordered{load: via.AutoLoader(t), put: t.Put, rem: t.Remove, clear: t.Clear, size: t.Size, keys: t.Keys, vals: t.Values, hasVals: true,
 			fwd: func() []kv {
 				var out []kv
-				for it := t.Iterator(); it.Next(); {
+				it := t.Iterator()
+				for it.Next() {
 					out = append(out, kv{it.Key(), it.Value()})
+				}
+				// the same iterator, run off the end and rewound, enumerates the same again
+				var again []kv
+				for it.Begin(); it.Next(); {
+					again = append(again, kv{it.Key(), it.Value()})
+				}
+				if !slices.Equal(again, out) {
+					return append(out, again...)
 				}
 				return out
 			},
@@ -258,6 +348,13 @@ func build(c kvh.Case) *ordered {
 				it := t.Iterator()
 				for it.End(); it.Prev(); {
 					out = append(out, kv{it.Key(), it.Value()})
+				}
+				var again []kv
+				for it.End(); it.Prev(); {
+					again = append(again, kv{it.Key(), it.Value()})
+				}
+				if !slices.Equal(again, out) {
+					return append(out, again...)
 				}
 				return out
 			},
